@@ -23,6 +23,10 @@ void splinetable<Alloc>::fit(const ::ndsparse& data,
 	              "DoubleContCont must be a container of DoubleCont values");
 	
 	//Sanity checking
+	if(data.ndim==0)
+		throw std::logic_error("Input data has dimension 0");
+	if(data.rows==0)
+		throw std::logic_error("Input data has no entries");
 	if(data.rows!=weights.size())
 		throw std::logic_error("Number of weights ("
 		                       +std::to_string(weights.size())
@@ -42,6 +46,14 @@ void splinetable<Alloc>::fit(const ::ndsparse& data,
 		                       +std::to_string(coords.size())
 		                       +") does not equal dimension of input data ("
 		                       +std::to_string(data.ndim)+")");
+	for(uint32_t i=0; i<data.ndim; i++){
+		if(coords[i].size()<data.ranges[i])
+			throw std::logic_error("Coordinate vector for dimension "
+			                       +std::to_string(i)+" has fewer entries ("
+			                       +std::to_string(coords[i].size())
+			                       +") than the range of coordinate indices ("
+			                       +std::to_string(data.ranges[i])+")");
+	}
 	if(splineOrder.size()!=data.ndim)
 		throw std::logic_error("Number of spline orders ("
 		                       +std::to_string(splineOrder.size())
@@ -53,6 +65,13 @@ void splinetable<Alloc>::fit(const ::ndsparse& data,
 		                       +") does not equal dimension of input data ("
 		                       +std::to_string(data.ndim)+")");
 	for(uint32_t i=0; i<data.ndim; i++){
+		if(knots[i].size()<(uint64_t)splineOrder[i]+2)
+			throw std::logic_error("Knot vector for dimension "
+			                       +std::to_string(i)+" has too few knots ("
+			                       +std::to_string(knots[i].size())
+			                       +") for spline order "
+			                       +std::to_string(splineOrder[i])
+			                       +"; at least order+2 are required");
 		if(!std::is_sorted(knots[i].begin(),knots[i].end()))
 			throw std::logic_error("Knot vector for dimension "
 			                       +std::to_string(i)+
@@ -68,6 +87,18 @@ void splinetable<Alloc>::fit(const ::ndsparse& data,
 		                       +std::to_string(penaltyOrder.size())
 		                       +") should be 1 or the number of spline dimensions ("
 		                       +std::to_string(data.ndim)+")");
+	for(uint32_t i=0; i<data.ndim; i++){
+		//a dimension with zero smoothing gets no penalty term, so its penalty order is not used
+		uint32_t pOrder=(penaltyOrder.size()>1?penaltyOrder[i]:penaltyOrder[0]);
+		if((smoothing.size()>1?smoothing[i]:smoothing[0])!=0.0
+		   && (pOrder>splineOrder[i] || pOrder>knots[i].size()-splineOrder[i]-1))
+			throw std::logic_error("Penalty order ("+std::to_string(pOrder)
+			                       +") in dimension "+std::to_string(i)
+			                       +" exceeds the spline order ("
+			                       +std::to_string(splineOrder[i])
+			                       +") or the number of splines ("
+			                       +std::to_string(knots[i].size()-splineOrder[i]-1)+")");
+	}
 	if(monodim!=no_monodim && monodim>=data.ndim)
 		throw std::logic_error("Requested monotonic dimension ("
 		                       +std::to_string(monodim)
